@@ -88,7 +88,7 @@ CHECKS["C13"] = {
     "engine": "symx+vloop",
     "technique": "symbolic execution (z3) of retry chains through _Processor.process with symbolic failure and store-fault flags, symbolic result ttl and clock gaps; Worker.run() with a failing store and a symbolic broker latency",
     "text": "C13: after each execution the bucket under the result id is that execution's outcome (flag, data/exception text and type, start <= finish, ttl) and Job.result returns it; nothing is written when disabled; a failing store leaves the disposition and the worker untouched.",
-    "note": "in-memory bucket broker; eager set_result/set_exception ordering is checked under C16",
+    "note": "in-memory bucket broker; the Redis bucket broker on a fake server with the machine's UTC offset as a symbolic input (fixed offsets, quarter hours); eager set_result/set_exception ordering is checked under C16",
 }
 CHECKS["C16"] = {
     "engine": "symx",
